@@ -94,8 +94,10 @@ def generate(repo):
                           r'epoch = datetime_t\(date_t\(year, (\d+), (\d+)\)\); \} catch ?\(bad_lexical_cast ?&\) \{ .* \}', yb)
         if mm:
             ydir = (int(mm.group(1)), int(mm.group(2)), True)
-    # textual.cc instance_t::parse, after the reading loop: only the FRONT entry of the file's own apply
-    # stack is examined; a year entry there puts the saved clock back; one entry is popped
+    # textual.cc instance_t::parse, after the reading loop: every entry this file pushed on its own
+    # apply stack is undone, newest first (a year entry puts the clock it saved back), then the entry
+    # the caller pushed is popped; nothing else touches `epoch` there, and only the file's OWN stack
+    # is walked
     fend = False
     mp = re.search(r'void\s+instance_t::parse\s*\(\s*\)\s*\{(.*?)\n\}', tsrc, re.S)
     if mp:
@@ -103,9 +105,10 @@ def generate(repo):
         pb = re.sub(r'\s+', ' ', pb)
         tail = pb[pb.rfind('context.last = err.what(); } }'):] if 'context.last = err.what(); } }' in pb else ''
         if re.match(r'context\.last = err\.what\(\); \} \} '
+                    r'while \(apply_stack\.size\(\) > 1\) \{ '
                     r'if \(apply_stack\.front\(\)\.value\.type\(\) == typeid\(optional<datetime_t>\)\) '
                     r'epoch = boost::get<optional<datetime_t> >\(apply_stack\.front\(\)\.value\); '
-                    r'apply_stack\.pop_front\(\); ', tail) and len(re.findall(r'\bepoch\b', pb)) == 1:
+                    r'apply_stack\.pop_front\(\); \} apply_stack\.pop_front\(\); ', tail) and len(re.findall(r'\bepoch\b', pb)) == 1:
             fend = True
     text = ['(* GENERATED by harness/translators/c14_formats.py from src/times.cc - do not edit *)',
             'From Coq Require Import ZArith List.', 'Import ListNotations.', 'Local Open Scope Z_scope.',
@@ -130,8 +133,8 @@ def generate(repo):
             'Definition src_year_directive_month : Z := %d.' % ydir[0],
             'Definition src_year_directive_day : Z := %d.' % ydir[1],
             'Definition src_year_directive_unconditional : bool := %s.' % ('true' if ydir[2] else 'false (* unrecognised *)'),
-            '(* textual.cc instance_t::parse at end of file: if the front entry of the apply stack is a year entry, epoch :=',
-            '   the clock it saved; exactly that - no search through the stack or through the including files *)',
-            'Definition src_file_end_restores_front_only : bool := %s.' % ('true' if fend else 'false (* unrecognised *)'),
+            '(* textual.cc instance_t::parse at end of file: while the own apply stack of the file has entries, a year entry at the',
+            '   front puts the clock it saved back and the front is popped - the whole own stack, newest first, and only it *)',
+            'Definition src_file_end_unwinds_own_stack : bool := %s.' % ('true' if fend else 'false (* unrecognised *)'),
             '']
     return {'DateFormats.v': '\n'.join(text)}
